@@ -34,7 +34,7 @@ PROPS = {
                 coq=['props/C05.vo'], cfgprobe='cfg', tags=[5], macro=dict(cases=150, stress=False),
                 streams=[('w1', 'S5', 20, 50), ('w2', 'S5', 10, 50)], configs=['dbg'], need=['find', 'iter']),
     'C06': dict(title='Iteration visits every matching live entity exactly once with its own data',
-                coq=['props/C06.vo'], tags=[6],
+                coq=['props/C06.vo'], tags=[6], fill=True,
                 streams=[('w1', 'S5', 50, 60), ('w2', 'S5', 25, 60)], configs=['dbg', 'rel'], need=['iter', 'readall']),
     'C07': dict(title='ecs_iter_destroy! visits each entity once and destroys exactly the flagged ones',
                 coq=['props/C07.vo'], tags=[7],
@@ -76,7 +76,7 @@ PROPS['C18'] = dict(title='Generated code is unsafe-free and unsound client prog
                     coq=['props/C18.vo'], tags=[18], c18=dict(cases=60),
                     streams=[], configs=['dbg'], need=[])
 PROPS['C19'] = dict(title='Crate features and build profiles change nothing but what they document',
-                    coq=['props/C19.vo'], big=True, cycle=True, tags=[1, 2, 3, 4, 5, 6, 7, 8, 9, 10, 12, 13, 14, 17, 19],
+                    coq=['props/C19.vo'], big=True, cycle=True, fill=True, tags=[1, 2, 3, 4, 5, 6, 7, 8, 9, 10, 12, 13, 14, 17, 19],
                     streams=[('w1', 'S1', 12, 50), ('w1', 'S2', 10, 50), ('w1', 'S7', 12, 50), ('w1', 'S12', 10, 50), ('w1', 'S9', 8, 50), ('w3', 'S2', 10, 40), ('w3', 'S1', 8, 40)],
                     configs=['dbg-ev', 'dbg-wrap', 'rel', 'rel-plain', 'dbg-32'], need=['create'])
 PROPS['C15'] = dict(title='Archetype and component ids follow the discriminant rule and are unique',
